@@ -2,8 +2,16 @@
 from .. import checks_a, grid
 from .gridprop import GridProp
 
+def _check(cfg, tier):
+    if "nested" in cfg.tags:
+        # programs that already contain one or two differentiations (incl. the library's own second-order operators
+        # with non-default argnum): their reverse-mode derivative against the closed-form oracle
+        return checks_a.check_vjp(cfg, tier)
+    return checks_a.check_second_order(cfg, tier)
+
+
 GridProp(
-    "C07", "vf.props.c07", lambda tier: grid.second_order_grid(tier), checks_a.check_second_order,
+    "C07", "vf.props.c07", lambda tier: grid.second_order_grid(tier) + grid.nested_grid(tier), _check,
     files=["autograd/numpy/numpy_vjps.py", "autograd/numpy/numpy_jvps.py", "autograd/core.py", "autograd/builtins.py", "autograd/numpy/fft.py", "autograd/numpy/linalg.py", "autograd/tracer.py"],
     functions=["nested make_vjp / make_jvp through the public API (4 mode sequences)", "adjoint helper primitives and their own rules: dot_adjoint_*, tensordot_adjoint_*, untake, truncate_pad",
                "VSpace.add / mut_add / scalar_mul / inner_prod / covector, sparse_add (primitives with rules, traced when a rule is itself differentiated)", "every VJP/JVP rule reached when a rule body is traced"],
